@@ -46,7 +46,7 @@ package http2
 //@ pure func capMD(sc *serverConn) *metadata.Metadata = ctxMeta(sc.baseCtx)
 
 //@ func (*serverConn).processFrame :: sc, f -> err
-//@   props C03,C13,C10,C08,C12
+//@   props C03,C13,C10,C08,C12,C16
 //@   requires sc != nil && f != nil && frameOK(f) && sc.inflow.avail >= 0
 //@   requires [C12,C13:connection-invariant] connInv(sc) && frameWF(f)
 //@   requires hasMeta(sc.baseCtx) ==> ctxMeta(sc.baseCtx) != nil
